@@ -4,12 +4,13 @@
 Regenerates, from the clang AST of the current sources, Gallina terms for
   * the four explicit specialisations RayCasting<float|double, 2|3>::next   (src_next_f2, src_next_d2, src_next_f3, src_next_d3:
     one term per specialisation — they are four separately written functions, a change in one of them must show), and
-  * the template members computeRayNumberOfCells, setOriginPoint, setEndPoint (instantiations <float|double, 2|3>; the float
-    and the double instantiation of the same template must give the same term, which is emitted once per DIM),
+  * the template members computeRayNumberOfCells, setOriginPoint, setEndPoint, cast(), cast(end), cast(origin, end)
+    (instantiations <float|double, 2|3>; the float and the double instantiation of the same template must give the same
+    term, which is emitted once per DIM; the while loop of cast() becomes a local fix on a fuel argument),
     with the calls into GridIndexMapping (computeCellIndexes, computeCellCenterPosition, getCellResolution) inlined from
     src/containers/grid/GridIndexMapping.cpp.
-coq/SrcTieC14.v proves the generated terms equal to RayCastModel.next / ncells / set_origin / set_end for EVERY numeric
-dictionary.  Anything the symbolic executor (eigsym.py) cannot handle is left out and reported for C14 only."""
+coq/SrcTieC14.v / SrcTieC14Cast.v prove the generated terms equal to RayCastModel.next / ncells / set_origin / set_end /
+cast_cells / after_cast for EVERY numeric dictionary.  Anything the symbolic executor (eigsym.py) cannot handle is left out and reported for C14 only."""
 import os
 import sys
 
@@ -26,7 +27,7 @@ INSTS = [("float", 2), ("double", 2), ("float", 3), ("double", 3)]
 LETTER = {"float": "f", "double": "d"}
 # (coq stem, method, number of parameters)
 TEMPLATE_MEMBERS = [("src_ncells", "computeRayNumberOfCells", 0), ("src_setOrigin", "setOriginPoint", 1),
-                    ("src_setEnd", "setEndPoint", 1)]
+                    ("src_setEnd", "setEndPoint", 1), ("src_cast", "cast", 0), ("src_castE", "cast", 1), ("src_castOE", "cast", 2)]
 
 
 def load(repo):
